@@ -320,9 +320,6 @@ func stories(reg univ.Regime) []story {
 	case univ.RegimeX:
 		// v1 stories must be over before the require height (5): they occupy heights 1..4
 		for _, s := range v1 {
-			if s.name == "fc-shared2-window" {
-				continue // its window would reach the require height
-			}
 			out = append(out, s)
 		}
 		out = append(out, v2...)
